@@ -32,6 +32,12 @@ search: minimum eigenvalue of covariance matrices built with the real API on lat
   np.nextafter neighbours on both sides: finite, cor(0) = 1, |cor| <= 1 on lags from 1e-5 len_rescaled, eigenvalues on a
   lattice plus a tight cluster (separations 1e-5 ... 1e-2 len_rescaled), sign of the shipped spectral density, and
   continuity in the parameters (sets a few ulp apart give the same correlation to 1e-9).
+  route_scan (wave 6): every public route to a parameter state (keyword / positional construction, var_raw=, integral_scale=
+  scalar / list, len_scale list, rescale=, anis= + angles=, space-time, lat-lon; attribute assignment fresh / after evaluation,
+  var_raw / integral_scale setters, set_arg_bounds then assignment, set_arg_bounds(check_args)) x every argument x values below / on /
+  beside / inside both ends of its interval: outside => raises, inside => accepted, accepted => arguments inside arg_bounds, |cor| <= 1,
+  PSD.  signed_scan: lags of either sign — evenness of all functions / variants, |cor| <= 1, matrices from signed 1-D differences
+  symmetric and PSD.  corr_probes builds a rotating quarter of its cases a second time through var_raw= / positional arguments.
 """
 import itertools
 import math
@@ -62,6 +68,9 @@ ASSUMPTIONS = [
     "rounding_scan: a documented approximation that replaces the closed form beyond a threshold (Matern: Gaussian limit for nu > 20) is a jump by design;"
     " the admissible jump across it is bounded by 2e-2 (DOC_SWITCH); the parameter sweep sets the optional arguments of a few living objects in place"
     " (construction costs 4 ms) and re-evaluates every failure on a freshly constructed model (a failure only the swept object shows is keyed after-history:*)",
+    "route_scan: the admissible interval of each argument is read from a freshly constructed reference model of the same class / dimension / configuration (its arg_bounds are tied to the Lean decision"
+    " table by the correspondence); a ValueError of an integral_scale route for in-bounds parameters counts as a refusal when the class reports no positive finite integral scale for them (C03's subject);"
+    " set_arg_bounds is exercised with user bounds inside the class bounds only",
     "in-place histories: the Lean state machine (hStep) carries the dimension, the dimension of the stored bounds and var / len_scale / nugget /"
     " optional arguments; rescale, anis, angles, integral_scale and set_arg_bounds histories are explored by the search only (history_scan:"
     " PSD scans + equality with a fresh model); for TPLGaussian / TPLExponential / TPLStable the reported var = var_raw * var_factor moves with"
@@ -293,6 +302,7 @@ def corr_probes(ctx, dist, dis, n_random):
                     add(cls, d, vals, "mixed")
     lean = run_driver(ops)
     nontrivial = set()
+    n_seen = 0
     for (cls, kw, kind), l in zip(meta, lean):
         m, res, dimwarn, other = construct(cls, **kw)
         dist["probe:" + kind] = dist.get("probe:" + kind, 0) + 1
@@ -321,6 +331,45 @@ def corr_probes(ctx, dist, dis, n_random):
             dis.append({"what": "probe:warn", "cls": cls, "kw": kw, "real": dimwarn, "lean": l["warn"]})
         if real_acc != l["accepts"]:
             dis.append({"what": "probe:accepts", "cls": cls, "kw": kw, "real": real_acc, "lean": l["accepts"]})
+        # the decision table does not depend on the ROUTE by which the constructor receives the values: a rotating quarter of
+        # the cases is built a second time through var_raw= (classes with var_factor = 1) / positional arguments / a non-default
+        # rescale= / assignment on a default-constructed object (single-argument cases) and must give the model's answer as well
+        n_seen += 1
+        if (n_seen + ctx.seed) % 4 == 0 and (isinstance(res, list) or res == "ok"):
+            tpl = cls in ("TPLGaussian", "TPLExponential", "TPLStable")
+            route = ["positional", "var_raw=", "setter", "rescale="][(n_seen // 4) % 4]
+            if (route == "var_raw=" and tpl) or (route == "setter" and len(kw) != 2):
+                route = "positional"        # var_raw differs from var by var_factor there; several assignments would raise in assignment order
+            kw2 = dict(kw)
+            if route == "var_raw=":
+                kw2["var_raw"] = kw2.pop("var", 1.0)
+                m2, res2, dimwarn2, _ = construct(cls, **kw2)
+            elif route == "rescale=":
+                m2, res2, dimwarn2, _ = construct(cls, rescale=2.5, **kw2)
+            elif route == "setter":
+                m2, res2, dimwarn2, _ = construct(cls, dim=kw2.pop("dim"))
+                if m2 is not None:
+                    (a2, v2), = kw2.items()
+                    res2, _w = apply_set(m2, a2, v2)
+            else:
+                pos = (kw2.pop("dim"), kw2.pop("var", 1.0), kw2.pop("len_scale", 1.0), kw2.pop("nugget", 0.0))
+                with warnings.catch_warnings(record=True) as w2:
+                    warnings.simplefilter("always")
+                    try:
+                        getattr(gs(), cls)(*pos, **kw2)
+                        res2 = "ok"
+                    except ValueError as e:
+                        mm = _ERR.match(str(e))
+                        res2 = [mm.group(1), _CASE[mm.group(2)]] if mm else "ValueError:" + str(e)[:60]
+                    except Exception as e:
+                        res2 = type(e).__name__
+                dimwarn2 = any("is not appropriate for this model" in str(x.message) for x in w2)
+            dist["probe-route:" + route] = dist.get("probe-route:" + route, 0) + 1
+            # TPL classes: var = var_raw * var_factor(len_scale, len_low, hurst), so a degenerate length is reported as a wrong `var`
+            # when the variance is not re-assigned after it (setter route): rejection vs rejection is what is compared there
+            same = res2 == res or (tpl and route == "setter" and isinstance(res, list) and isinstance(res2, list))
+            if not same or dimwarn2 != dimwarn:
+                dis.append({"what": "probe:route-result", "cls": cls, "kw": kw, "route": route, "real": [res2, dimwarn2], "real_kwargs_route": [res, dimwarn], "lean": lres})
     return len(ops), len(nontrivial)
 
 
@@ -2270,6 +2319,559 @@ def rounding_scan(ctx, deep, viol, stats):
     return ev
 
 
+# ---------------------------------------------------------------------------------------------------------------
+# every public route to a parameter state validates; lags of either sign
+# ---------------------------------------------------------------------------------------------------------------
+# C02 says "for every parameter set inside its bounds ... valid", i.e. the acceptance predicate of the code is what stands
+# between a user and an invalid covariance.  A model object can be brought to a parameter state through many public routes
+# (keyword / positional construction, var_raw=, integral_scale= as scalar or list, list-valued len_scale, rescale=, anis= /
+# angles=, space-time and lat-lon configurations, attribute assignment on a living object before / after it was evaluated,
+# var_raw / integral_scale setters, user bounds narrowed with set_arg_bounds followed by assignment).  route_scan walks the
+# product  class x route x argument x {below, on, just inside, just outside every end of the argument's interval}  and
+# requires of each route the same thing: a value outside the bounds raises, a value inside is accepted, and an accepted
+# object has all its arguments inside its own `arg_bounds`, |correlation| <= 1 and positive semi-definite covariance
+# matrices.  The routes are enumerated here, not the places where the code happens to validate.
+CTOR_ROUTES = ["kwargs", "positional", "var_raw=", "integral_scale=", "integral_scale=list", "len_scale=list", "rescale=",
+               "anis=+angles=", "temporal", "spatial_dim+temporal", "latlon"]
+OBJ_ROUTES = ["setter", "setter-after-evaluation", "var_raw-setter", "integral_scale-setter", "set_arg_bounds+setter",
+              "set_arg_bounds(check_args)"]
+_REFUSAL = re.compile(r"Integral scale could not be set")
+
+
+def _route_value_list(b, default, quick_base=False):
+    """values below / on / next to / inside both ends of the interval b = (lo, hi[, type]); each with a tag"""
+    iv = b[2] if len(b) == 3 else "cc"
+    lo, hi = float(b[0]), float(b[1])
+    step_in = (nudge(lo, 1) if lo != 0 else 1e-3)
+    vals = [("below", lo - 0.37), ("on-lo", lo), ("just-inside-lo", step_in)]
+    if not quick_base:
+        vals.append(("just-below-lo", nudge(lo, -1)))
+        vals.append(("default", float(default)))
+    if not math.isinf(hi):
+        vals += [("on-hi", hi), ("just-above-hi", nudge(hi, 1))]
+        if not quick_base:
+            vals += [("just-inside-hi", nudge(hi, -1)), ("above", hi + 0.41)]
+    elif not quick_base:
+        vals.append(("large", 30.0))
+    return [(t, float(v), in_bounds(float(v), (lo, hi, iv))) for t, v in vals]
+
+
+def _route_call(route, cls, d, ls, arg, v):
+    """(args, kwargs) of the constructor call that builds through `route` the model of class cls, model dimension d, whose
+    argument `arg` (var / len_scale / nugget / anis = first anisotropy ratio / an optional argument) has the value v and
+    whose other arguments are harmless; None when the route cannot express that argument"""
+    var, lsv, nug, an, opt = 2.0, ls, 0.0, None, {}
+    if arg == "var":
+        var = v
+    elif arg == "len_scale":
+        lsv = v
+    elif arg == "nugget":
+        nug = v
+    elif arg == "anis":
+        an = v
+    else:
+        opt[arg] = v
+    if arg == "anis" and d == 1:
+        return None
+    tail = [1.3, 0.7]
+    anis = None if an is None else [an] + tail[:d - 2]
+    kw = dict(dim=d, var=var, len_scale=lsv, nugget=nug, **opt)
+    if anis is not None:
+        kw["anis"] = anis
+    args = ()
+    if route == "kwargs":
+        pass
+    elif route == "positional":
+        args = (d, var, lsv, nug, anis if anis is not None else 1.0, [0.3, -0.2, 0.5][:d * (d - 1) // 2] if d > 1 else 0.0)
+        kw = dict(opt)
+    elif route == "var_raw=":
+        kw["var_raw"] = kw.pop("var")
+    elif route == "integral_scale=":
+        kw["integral_scale"] = kw.pop("len_scale")
+    elif route in ("integral_scale=list", "len_scale=list"):
+        if d == 1:
+            return None
+        kw.pop("anis", None)
+        second = (an if an is not None else 0.6) * ls
+        lst = [lsv, second] + [1.4 * ls] * (d - 2)
+        kw.pop("len_scale")
+        kw["integral_scale" if route.startswith("integral") else "len_scale"] = lst
+    elif route == "rescale=":
+        kw["rescale"] = 2.5
+    elif route == "anis=+angles=":
+        if d == 1:
+            return None
+        kw.setdefault("anis", [0.5] + tail[:d - 2])
+        kw["angles"] = [0.3, -0.2, 0.5][:d * (d - 1) // 2]
+    elif route == "temporal":
+        if d == 1:
+            return None
+        kw["temporal"] = True
+    elif route == "spatial_dim+temporal":
+        if d == 1:
+            return None
+        kw.pop("dim")
+        kw.update(spatial_dim=d - 1, temporal=True)
+    elif route == "latlon":
+        if arg == "anis":
+            return None
+        kw.pop("dim")
+        kw.update(latlon=True, geo_scale=1.0)
+    else:
+        raise KeyError(route)
+    return args, kw
+
+
+def _route_cfg(route, d):
+    """configuration keywords of the reference model whose bounds the route's model must obey, and its model dimension"""
+    if route in ("temporal", "spatial_dim+temporal"):
+        return {"dim": d, "temporal": True}, d
+    if route == "latlon":
+        return {"latlon": True}, 3
+    return {"dim": d}, d
+
+
+def _call_outcome(f):
+    """('ok', model) | ('raise', [arg, case] or message) | ('refused', message) | ('other', exception name)"""
+    with warnings.catch_warnings(), np.errstate(all="ignore"):
+        warnings.simplefilter("ignore")
+        try:
+            return "ok", f()
+        except ValueError as e:
+            s = str(e)
+            if _REFUSAL.search(s):
+                return "refused", s[:80]
+            mm = _ERR.match(s)
+            return "raise", ([mm.group(1), _CASE[mm.group(2)]] if mm else s[:80])
+        except Exception as e:   # ZeroDivisionError, FloatingPointError, ...: the state was not accepted
+            return "other", f"{type(e).__name__}: {str(e)[:60]}"
+
+
+def _state_in_bounds(m):
+    """None, or (argument, value, bounds) of the first argument of the accepted object outside the object's own arg_bounds"""
+    for a, b in m.arg_bounds.items():
+        if not b:
+            continue
+        val = np.atleast_1d(np.asarray(getattr(m, a), float))
+        for x in val:
+            if not in_bounds(float(x), tuple(b)) and not np.isnan(x):
+                return a, float(x), list(b)
+    return None
+
+
+def _route_points(d, L):
+    per = {1: 24, 2: 5, 3: 3, 4: 2}[d]
+    grid = np.array(list(itertools.product(range(per), repeat=d)), dtype=float).T
+    rr = np.random.RandomState(12345 + d)
+    return np.hstack([grid * 0.45, rr.rand(d, 12) * per * 0.45]) * L
+
+
+def _psd_report(cls, m):
+    """None, or (key, text) for an accepted object that is not a valid covariance: correlation grid and covariance matrix
+    (signed position differences through cov_spatial; lat-lon through isometrize) of the object itself"""
+    with warnings.catch_warnings(), np.errstate(all="ignore"):
+        warnings.simplefilter("ignore")
+        L = m.len_rescaled if not (hasattr(m, "len_low") and m.len_low > 0) else (m.len_low + m.len_scale) / m.rescale
+        if not (np.isfinite(L) and L > 0):
+            return f"degenerate-length-accepted:{cls}", f"accepted model has len_rescaled = {L!r}"
+        hh = L * np.concatenate([[0.0], 10.0 ** np.linspace(-4, 1.3, 40), np.linspace(0.05, 4, 80)])
+        win = snap_window(m)
+        hh = hh[(hh == 0) | (hh > win * 1.001)]
+        c = np.asarray(m.correlation(hh), float)
+        sl = small_lag_report(m)
+        if sl is not None:
+            keep = (hh == 0) | (hh > 1.25 * sl["lags_over_len_rescaled"][1] * m.len_rescaled)
+            hh, c = hh[keep], c[keep]
+        if not np.all(np.isfinite(c)):
+            i = int(np.argmax(~np.isfinite(c)))
+            return f"correlation-non-finite:{cls}", f"correlation({float(hh[i])!r}) = {float(c[i])!r}"
+        if abs(c[0] - 1.0) > 1e-12:
+            return f"correlation-at-zero:{cls}", f"correlation(0) = {float(c[0])!r}"
+        if np.any(np.abs(c) > 1 + 1e-9):
+            i = int(np.argmax(np.abs(c)))
+            return (f"correlation-exceeds-one:{cls}" + (":beyond-snap-window" if cls in TPL_ALPHA else ""),
+                    f"|correlation({float(hh[i])!r})| = {float(abs(c[i]))!r} > 1")
+        if not (np.isfinite(m.var) and m.var > 0):
+            return None         # the variance itself is outside the bounds: reported by the caller
+        if m.latlon:
+            rr = np.random.RandomState(777)
+            ll = sphere_points(rr, 25)[0][1]
+            C = cov_matrix_latlon(m, ll)[0]
+            lag, d = spatial_lags(m, ll), 3
+        else:
+            d = int(m.dim)
+            pos = _route_points(d, L)
+            C = cov_matrix_spatial(m, pos) - m.nugget * np.eye(pos.shape[1])
+            lag = spatial_lags(m, pos)
+        if matrix_fails(m, C):
+            lam = min_eig(C) if np.all(np.isfinite(C)) else float("nan")
+            key = classify_failure(cls, d, m, lag, C, f"negative-eigenvalue:{cls}:latlon" if m.latlon else None)[0]
+            return key, f"covariance matrix (n={C.shape[0]}, dim={d}) has min eigenvalue {lam:.3e} = {lam / (C.shape[0] * m.var):.3e} n var"
+    return None
+
+
+def _psd_report_safe(cls, m):
+    try:
+        return _psd_report(cls, m)
+    except Exception as e:
+        return f"api-raises-on-accepted-model:{cls}", f"evaluating the accepted object raises {type(e).__name__}: {str(e)[:80]}"
+
+
+def route_scan(ctx, deep, viol, stats):
+    g = gs()
+    ev = 0
+    full = deep or not ctx.quick
+    st = stats.setdefault("routes", {})
+    cnt = lambda k, n=1: st.__setitem__(k, st.get(k, 0) + n)
+    per_key = {}
+
+    def add(key, what, case):
+        # per key: the witnesses that also exhibit an invalid covariance first, two in the report
+        per_key.setdefault(key, []).append((0 if case.get("invalid") else 1, len(per_key.get(key, [])), {"key": key, "what": what, "case": case}))
+
+    def judge(cls, route, arg, tag, v, inside, out, m, case, bounds):
+        """common verdict on one attempt to bring an object to (arg = v) through a route"""
+        nonlocal ev
+        ev += 1
+        cnt(f"{route}: {'accepted' if out[0] == 'ok' else 'raised' if out[0] in ('raise', 'other') else 'refused'} / {'inside' if inside else 'outside'}")
+        if out[0] == "refused":
+            return
+        if out[0] != "ok":
+            if inside and "integral_scale" in route:
+                # prescribing an integral scale needs the class to report a positive finite one for these parameters (C03's
+                # subject: JBessel's quadrature D11, Stable alpha -> 0, Rational alpha = 1/2 have none): a refusal, not a verdict on bounds
+                kwr = {k: x for k, x in case.get("kw", case.get("start", {})).items() if k not in ("integral_scale", "len_scale", "anis", "angles")}
+                if arg in kwr or arg in ("var", "len_scale", "nugget", "anis"):
+                    pass
+                else:
+                    kwr[arg] = v
+                i0 = _call_outcome(lambda: float(getattr(gs(), cls)(**kwr).calc_integral_scale()))
+                if i0[0] != "ok" or not (np.isfinite(i0[1]) and i0[1] > 0):
+                    cnt(f"{route}: refused (the class reports no positive finite integral scale for these parameters)")
+                    return
+            if inside:
+                add(f"route-rejects-valid-parameters:{route}:{cls}", f"{arg} = {v!r} ({tag}) is inside the bounds {list(bounds)} but the route '{route}' raises: {out[1]}", case)
+            return
+        if not inside:
+            rep = _psd_report_safe(cls, m)
+            add(f"route-accepts-out-of-bounds:{route}:{cls}",
+                f"{arg} = {v!r} ({tag}) is outside the bounds {list(bounds)} of {cls}, yet the route '{route}' accepts it without an exception"
+                + (f"; the accepted object is not a valid covariance: {rep[1]}" if rep else ""), {**case, "invalid": rep[0] if rep else None})
+            return
+        bad = _state_in_bounds(m)
+        if bad is not None:
+            add(f"accepted-state-outside-arg_bounds:{route}:{cls}", f"object accepted through '{route}' has {bad[0]} = {bad[1]!r} outside its own arg_bounds {bad[2]}", case)
+            return
+        if tag != "default" or route != "kwargs":
+            rep = _psd_report_safe(cls, m)
+            ev += 1
+            if rep is not None:
+                add(rep[0], f"model accepted through the route '{route}' ({arg} = {v!r}, {tag}): {rep[1]}", case)
+
+    for ic, cls in enumerate(CLASSES):
+        if deep and _FOCUS and cls not in _FOCUS:
+            continue
+        okd = [d for d in valid_dims(cls, "plain")[0] if d <= 3]
+        okd_t = [d for d in valid_dims(cls, "temporal")[0] if d <= 4]
+        T = getattr(g, cls)
+        slow_int = T.calc_integral_scale is g.CovModel.calc_integral_scale
+        # ---------------- constructor routes
+        for ir, route in enumerate(CTOR_ROUTES):
+            if not full and route in (("temporal", "rescale="), ("spatial_dim+temporal", "anis=+angles="))[(ic + ctx.seed) % 2]:
+                continue        # quick tier: the two space-time spellings / the two orientation-free spellings alternate over classes and seeds
+            if route in ("temporal", "spatial_dim+temporal"):
+                pool = okd_t
+            elif route == "latlon":
+                pool = [3] if 3 in valid_dims(cls, "plain")[0] else []
+            elif route in ("integral_scale=list", "len_scale=list", "anis=+angles="):
+                pool = [d for d in okd if d > 1]
+            else:
+                pool = okd
+            if not pool:
+                continue
+            dims = pool if full else [pool[(ir + ic + ctx.seed) % len(pool)]]
+            for d in dims:
+                cfgkw, md = _route_cfg(route, d)
+                with warnings.catch_warnings():
+                    warnings.simplefilter("ignore")
+                    try:
+                        ref = T(**cfgkw)
+                    except Exception:
+                        continue
+                rb = {a: tuple(b) for a, b in ref.arg_bounds.items() if b}
+                ls = 1.7
+                for arg, b in rb.items():
+                    default = {"var": 2.0, "len_scale": ls, "nugget": 0.0, "anis": 0.5}.get(arg)
+                    if default is None:
+                        default = float(getattr(ref, arg))
+                    base = arg in ("var", "len_scale", "nugget", "anis")
+                    if base and not full and route != "var_raw=" and (ic + ir + ctx.seed) % 3 != 0:
+                        continue        # quick tier: the class-independent arguments go through each constructor route for a rotating third of the
+                                        # classes (var_raw=: all), the optional arguments of every class through every route
+                    n_inside = 0
+                    for tag, v, inside in _route_value_list(b, default, quick_base=not full):
+                        if arg in rescalable_opt_args(cls) and tag == "large":
+                            continue
+                        if slow_int and "integral_scale" in route and inside and not full:
+                            n_inside += 1
+                            if n_inside > 1 or (list(rb).index(arg) + ic + ir + ctx.seed) % 3 != 0:
+                                continue        # quick tier: where the integral scale costs two quadratures (~60 ms) one accepted value, for a rotating third of the arguments
+                        call = _route_call(route, cls, md, ls, arg, v)
+                        if call is None:
+                            continue
+                        args, kw = call
+                        out = _call_outcome(lambda: T(*args, **kw))
+                        case = {"cls": cls, "route": route, "argument": arg, "value": v, "args": list(args), "kw": kw}
+                        judge(cls, route, arg, tag, v, inside, out, out[1] if out[0] == "ok" else None, case, b)
+        # ---------------- routes on a living object
+        pool = okd
+        for ir, route in enumerate(OBJ_ROUTES):
+            dims = pool if full else [pool[(ir + ic + ctx.seed + 1) % len(pool)]]
+            for d in dims:
+                kw0 = dict(dim=d, var=2.0, len_scale=1.7, nugget=0.0)
+                if d > 1:
+                    kw0.update(anis=[0.5, 1.3][:d - 1], angles=[0.3, -0.2, 0.5][:d * (d - 1) // 2])
+                with warnings.catch_warnings():
+                    warnings.simplefilter("ignore")
+                    try:
+                        m = T(**kw0)
+                    except Exception:
+                        continue
+                rb = {a: tuple(b) for a, b in m.arg_bounds.items() if b}
+                home = {a: (np.array(getattr(m, a), float).copy() if a == "anis" else float(getattr(m, a))) for a in rb}
+
+                def restore():
+                    nonlocal m
+                    ok = True
+                    with warnings.catch_warnings(), np.errstate(all="ignore"):
+                        warnings.simplefilter("ignore")
+                        try:
+                            m.set_arg_bounds(check_args=False, **{a: list(b) for a, b in rb.items()})
+                            for a, h in home.items():     # (finding D13: a rejected value stays in the object, so the first pass may raise)
+                                try:
+                                    setattr(m, a, h)
+                                except ValueError:
+                                    pass
+                            for a, h in home.items():
+                                setattr(m, a, h)
+                            ok = _state_in_bounds(m) is None and float(m.len_scale) == home["len_scale"]
+                        except Exception:
+                            ok = False
+                        if not ok:
+                            m = T(**kw0)
+
+                for arg, b in rb.items():
+                    if arg == "anis" and d == 1:
+                        continue
+                    if route == "var_raw-setter" and arg != "var":
+                        continue
+                    if route == "integral_scale-setter" and arg not in ("len_scale", "anis"):
+                        continue
+                    default = home[arg][0] if arg == "anis" else home[arg]
+                    target_b = b
+                    if route.startswith("set_arg_bounds"):
+                        # user bounds strictly inside the class bounds, interval type walking through the four kinds
+                        lo, hi = float(b[0]), float(b[1])
+                        span = (hi - lo) if not math.isinf(hi) else 4.0
+                        target_b = (lo + 0.25 * span, lo + 0.75 * span, ["cc", "oo", "co", "oc"][(ic + ir + d + len(arg) + ctx.seed) % 4])
+                    base = arg in ("var", "len_scale", "nugget", "anis")
+                    values = _route_value_list(target_b, 0.5 * (target_b[0] + target_b[1]) if route.startswith("set_arg_bounds") else default,
+                                               quick_base=not full)
+                    if route == "set_arg_bounds(check_args)":
+                        # the bounds are changed while the CURRENT value may lie outside the new ones: set_arg_bounds moves it inside
+                        for tag, v, inside in values:
+                            restore()
+                            r0 = _call_outcome(lambda: setattr(m, arg, [v] + [1.3] * (d - 2) if arg == "anis" else v))
+                            if r0[0] != "ok" or not in_bounds(v, b):
+                                restore()
+                                continue
+                            out = _call_outcome(lambda: m.set_arg_bounds(check_args=True, **{arg: list(target_b)}))
+                            ev += 1
+                            cnt(f"{route}: value {'inside' if inside else 'outside'} the new bounds")
+                            case = {"cls": cls, "route": route, "argument": arg, "value_before": v, "new_bounds": list(target_b), "start": kw0}
+                            if out[0] != "ok":
+                                add(f"route-rejects-valid-parameters:{route}:{cls}", f"set_arg_bounds({arg}={list(target_b)}) raises: {out[1]}", case)
+                                continue
+                            bad = _state_in_bounds(m)
+                            now = np.atleast_1d(np.asarray(getattr(m, arg), float))
+                            if bad is not None:
+                                add(f"accepted-state-outside-arg_bounds:{route}:{cls}", f"after set_arg_bounds({arg}={list(target_b)}) with {arg} = {v!r} the object has "
+                                    f"{bad[0]} = {bad[1]!r} outside its arg_bounds {bad[2]}", case)
+                            elif inside and not np.allclose(now[0], v, rtol=1e-12, atol=0):
+                                add(f"set_arg_bounds-moves-valid-value:{cls}", f"{arg} = {v!r} is inside the new bounds {list(target_b)} but set_arg_bounds changed it to {now[0]!r}", case)
+                        restore()
+                        continue
+                    if route == "set_arg_bounds+setter":
+                        restore()
+                        o = _call_outcome(lambda: m.set_arg_bounds(**{arg: list(target_b)}))
+                        if o[0] != "ok":
+                            add(f"route-rejects-valid-parameters:{route}:{cls}", f"set_arg_bounds({arg}={list(target_b)}) raises: {o[1]}",
+                                {"cls": cls, "route": route, "argument": arg, "new_bounds": list(target_b), "start": kw0})
+                            restore()
+                            continue
+                    n_inside = 0
+                    for tag, v, inside in values:
+                        if arg in rescalable_opt_args(cls) and tag == "large":
+                            continue
+                        if slow_int and "integral_scale" in route and inside and not full:
+                            n_inside += 1
+                            if n_inside > 1 or (list(rb).index(arg) + ic + ir + ctx.seed) % 3 != 0:
+                                continue
+                        if route != "set_arg_bounds+setter":
+                            restore()
+                        if route == "setter-after-evaluation":
+                            touch(m, draw_touch(None, "all"))
+                        if route == "var_raw-setter":
+                            f = lambda: setattr(m, "var_raw", v)
+                        elif route == "integral_scale-setter":
+                            if arg == "anis":
+                                f = lambda: setattr(m, "integral_scale", [1.7, v * 1.7] + [1.4 * 1.7] * (d - 2))
+                            else:
+                                f = lambda: setattr(m, "integral_scale", v)
+                        elif arg == "anis":
+                            f = lambda: setattr(m, "anis", [v] + [1.3] * (d - 2))
+                        else:
+                            f = lambda: setattr(m, arg, v)
+                        out = _call_outcome(f)
+                        case = {"cls": cls, "route": route, "argument": arg, "value": v, "start": kw0}
+                        if route == "set_arg_bounds+setter":
+                            case["new_bounds"] = list(target_b)
+                        judge(cls, route, arg, tag, v, inside, (out[0], m) if out[0] == "ok" else out, m, case, target_b)
+                        if route == "set_arg_bounds+setter" and out[0] != "ok":
+                            # (finding D13: the rejected value stays in the object) put a valid value back under the user bounds
+                            _call_outcome(lambda: setattr(m, arg, [0.5 * (target_b[0] + target_b[1])] * (d - 1) if arg == "anis" else 0.5 * (target_b[0] + target_b[1])))
+                    restore()
+    for key, lst in per_key.items():
+        viol.extend(x[2] for x in sorted(lst, key=lambda x: x[:2])[:2])
+    return ev
+
+
+SIGNED_FNS = ["correlation", "covariance", "variogram", "cov_nugget", "vario_nugget"]
+
+
+def signed_scan(ctx, deep, viol, stats):
+    """lags of either sign: the isotropic functions and their axis / spatial variants take signed lags (1-D differences
+    x_i - x_j, arrays with negative entries, negative scalars).  For every class, accepted dimension and the edges of the
+    optional arguments: f(-h) = f(h) for correlation / covariance / variogram / *_nugget / *_axis(k) / *_spatial, values at
+    negative lags finite with |correlation| <= 1, and the matrices C(x_i - x_j) built from SIGNED differences through
+    covariance (transect), cov_axis (every axis) and cov_spatial are symmetric and positive semi-definite."""
+    g = gs()
+    ev = 0
+    full = deep or not ctx.quick
+    rng = np.random.RandomState(ctx.seed + 23)
+    cyc = Cycle(ctx.seed + 3)
+    st = stats.setdefault("signed", {})
+    cnt = lambda k, n=1: st.__setitem__(k, st.get(k, 0) + n)
+    per_key = {}
+
+    def add(key, what, case):
+        per_key[key] = per_key.get(key, 0) + 1
+        if per_key[key] <= 2:
+            viol.append({"key": key, "what": what, "case": case})
+
+    hpos = np.concatenate([10.0 ** np.linspace(-5, 1.3, 30), np.linspace(0.03, 3.0, 45), [0.999999, 1.0, 1.000001]])
+    for ic, cls in enumerate(CLASSES):
+        if deep and _FOCUS and cls not in _FOCUS:
+            continue
+        T = getattr(g, cls)
+        okd = [d for d in valid_dims(cls, "plain")[0] if d <= 3]
+        for d in okd:
+            plist = edge_params(cls, d, rng, False)
+            if not full and len(plist) > 4:
+                plist = [plist[i] for i in sorted({0, len(plist) - 1, (ic + d + ctx.seed) % len(plist), (2 * ic + d + 3 * ctx.seed + 1) % len(plist)})]
+            for ip, p in enumerate(plist):
+                ls = [0.4, 1.5, 6.0][(ip + d + ctx.seed) % 3]
+                kw = dict(dim=d, len_scale=ls, var=2.0, nugget=[0.0, 0.3][(ip + ic) % 2], **p)
+                apply_cycle(cls, kw, ls, cyc)
+                if d > 1:
+                    kw["anis"] = [float(10 ** rng.uniform(-0.6, 0.6)) for _ in range(d - 1)]
+                    kw["angles"] = [float(rng.uniform(-3, 3)) for _ in range(d * (d - 1) // 2)]
+                with warnings.catch_warnings(), np.errstate(all="ignore"):
+                    warnings.simplefilter("ignore")
+                    try:
+                        m = T(**kw)
+                    except ValueError:
+                        continue
+                    L = m.len_rescaled if not (hasattr(m, "len_low") and m.len_low > 0) else (m.len_low + m.len_scale) / m.rescale
+                    h = hpos * L
+                    case = {"cls": cls, "kw": kw}
+                    # (a) evenness, array / scalar / list / 2-D array inputs
+                    for fn in SIGNED_FNS:
+                        f = getattr(m, fn)
+                        a, b = np.asarray(f(h), float), np.asarray(f(-h), float)
+                        ev += 1
+                        cnt("evenness checks")
+                        bad = ~((a == b) | (np.isnan(a) & np.isnan(b)) | (np.abs(a - b) <= 1e-14 * (1 + np.abs(a))))
+                        if bad.any():
+                            i = int(np.argmax(bad))
+                            key = f"signed-lag:not-even:{fn}:{cls}"
+                            if fn == "correlation" and np.isfinite(a[i]) and not (abs(b[i]) <= 1 + 1e-9):
+                                key = f"signed-lag:correlation-exceeds-one-or-non-finite:{cls}"
+                            add(key, f"{fn}({-float(h[i])!r}) = {float(b[i])!r} but {fn}({float(h[i])!r}) = {float(a[i])!r}", {**case, "lag": -float(h[i])})
+                            continue
+                        mixed = np.where(np.arange(h.size) % 2 == 0, h, -h)
+                        c2 = np.asarray(f(mixed.reshape(2, -1)), float).ravel()
+                        s0 = float(np.asarray(f(-float(h[40])), float).ravel()[0])
+                        ok2 = (c2 == a) | (np.isnan(c2) & np.isnan(a)) | (np.abs(c2 - a) <= 1e-14 * (1 + np.abs(a)))
+                        ok3 = all((x == y) or (np.isnan(x) and np.isnan(y)) or abs(x - y) <= 1e-14 * (1 + abs(y)) for x, y in ((s0, a[40]),))
+                        if not ok2.all() or not ok3:
+                            add(f"signed-lag:not-even:{fn}:{cls}", f"{fn} of a mixed-sign 2-D array / negative scalar differs from {fn} of the absolute lags", case)
+                    for ax in range(d):
+                        for fn in ("cor_axis", "cov_axis", "vario_axis"):
+                            a, b = np.asarray(getattr(m, fn)(h, ax), float), np.asarray(getattr(m, fn)(-h, ax), float)
+                            ev += 1
+                            bad = ~((a == b) | (np.isnan(a) & np.isnan(b)) | (np.abs(a - b) <= 1e-14 * (1 + np.abs(a))))
+                            if bad.any():
+                                i = int(np.argmax(bad))
+                                add(f"signed-lag:not-even:{fn}:{cls}", f"{fn}({-float(h[i])!r}, axis={ax}) = {float(b[i])!r} but {float(a[i])!r} at the positive lag", {**case, "axis": ax})
+                    pos = rng.randn(d, 40) * L
+                    for fn in ("cor_spatial", "cov_spatial", "vario_spatial"):
+                        a, b = np.asarray(getattr(m, fn)(pos), float), np.asarray(getattr(m, fn)(-pos), float)
+                        ev += 1
+                        bad = ~((a == b) | (np.isnan(a) & np.isnan(b)) | (np.abs(a - b) <= 1e-12 * (1 + np.abs(a))))
+                        if bad.any():
+                            add(f"signed-lag:not-even:{fn}:{cls}", f"{fn}(-pos) differs from {fn}(pos) by {float(np.nanmax(np.abs(a - b))):.3e}", case)
+                    # (b) |correlation| <= 1 and finite at negative lags where it is at the positive ones
+                    cpos, cneg = np.asarray(m.correlation(h), float), np.asarray(m.correlation(-h), float)
+                    win = snap_window(m)
+                    okl = (h > win * 1.001)
+                    sl = small_lag_report(m)
+                    if sl is not None:
+                        okl &= h > 1.25 * sl["lags_over_len_rescaled"][1] * m.len_rescaled
+                    badn = okl & np.isfinite(cpos) & (np.abs(cpos) <= 1 + 1e-9) & ~(np.abs(cneg) <= 1 + 1e-9)
+                    if badn.any():
+                        i = int(np.argmax(badn))
+                        add(f"signed-lag:correlation-exceeds-one-or-non-finite:{cls}", f"correlation({-float(h[i])!r}) = {float(cneg[i])!r} (at the positive lag: {float(cpos[i])!r})",
+                            {**case, "lag": -float(h[i])})
+                    # (c) matrices from SIGNED differences of a transect
+                    x = np.concatenate([np.arange(24) * 0.4, rng.rand(10) * 9.0]) * L
+                    x = x[rng.permutation(x.size)]
+                    D = x[:, None] - x[None, :]
+                    mats = [("covariance(x_i - x_j)", np.asarray(m.covariance(D.ravel()), float).reshape(D.shape), np.abs(D))]
+                    for ax in range(d):
+                        mats.append((f"cov_axis(x_i - x_j, axis={ax})", np.asarray(m.cov_axis(D.ravel(), ax), float).reshape(D.shape),
+                                     np.abs(D) / (1.0 if ax == 0 else float(m.anis[ax - 1]))))
+                    mats.append(("cov_nugget(x_i - x_j)", np.asarray(m.cov_nugget(D.ravel()), float).reshape(D.shape), np.abs(D)))
+                    for name, C, lag in mats:
+                        ev += 1
+                        cnt("matrices from signed differences")
+                        if np.all(np.isfinite(C)) and np.max(np.abs(C - C.T)) > 1e-12 * m.sill:
+                            add(f"signed-lag:asymmetric-matrix:{cls}", f"{name} is not symmetric (max |C - C^T| = {float(np.max(np.abs(C - C.T))):.3e})", {**case, "matrix": name})
+                            continue
+                        if matrix_fails(m, C):
+                            # the same matrix from absolute differences tells a sign problem from an invalid model
+                            fn = getattr(m, name.split("(")[0])
+                            Ca = np.asarray(fn(np.abs(D).ravel(), int(name.split("axis=")[1][0])) if "axis=" in name else fn(np.abs(D).ravel()), float).reshape(D.shape)
+                            lam = min_eig(C) if np.all(np.isfinite(C)) else float("nan")
+                            if not matrix_fails(m, Ca):
+                                add(f"signed-lag:matrix-not-psd:{cls}", f"{name} on a 1-D transect (n={x.size}) has min eigenvalue {lam:.3e} / non-finite entries; the matrix built from"
+                                    f" |x_i - x_j| is positive semi-definite", {**case, "matrix": name, "min_eig": lam})
+                            else:
+                                key = classify_failure(cls, d, m, lag, C)[0]
+                                add(key, f"{name} on a 1-D transect (n={x.size}) has min eigenvalue {lam:.3e}", {**case, "matrix": name, "min_eig": lam})
+    return ev
+
+
 def directed(ctx, viol):
     """corpus of past findings, replayed first on every run (fixed inputs, no randomness)"""
     g = gs()
@@ -2352,6 +2954,8 @@ def search(ctx, deep=False):
     e2 = _safe("cor_scan", viol, cor_scan, ctx, deep, viol)
     e7 = _safe("history_scan", viol, history_scan, ctx, deep, viol, stats)
     e8 = _safe("rounding_scan", viol, rounding_scan, ctx, deep, viol, stats)
+    e9 = _safe("route_scan", viol, route_scan, ctx, deep, viol, stats)
+    e10 = _safe("signed_scan", viol, signed_scan, ctx, deep, viol, stats)
     e1 = _safe("eig_scan", viol, eig_scan, ctx, deep, viol, stats)
     e3 = _safe("spectrum_scan", viol, spectrum_scan, ctx, deep, viol)
     # one violation per key
@@ -2365,7 +2969,7 @@ def search(ctx, deep=False):
         out.sort(key=lambda v: bool(match_known("C02", v["key"])))
     except Exception:
         pass
-    return {"evaluations": e1 + e2 + e3 + e4 + e5 + e6 + e7 + e8, "violations": out[:12],
+    return {"evaluations": e1 + e2 + e3 + e4 + e5 + e6 + e7 + e8 + e9 + e10, "violations": out[:12],
             "summary": f"{e1} covariance matrices (lattice / clusters / random / sphere; plain, anisotropic-rotated, temporal, lat-lon via isometrize and via cov_yadrenko)"
                        f" at the edges of every bound: min eigenvalue >= -1e-8 n var; {e2} correlation grids (cor(0)=1, |cor|<=1); {e3} radial-Fourier-transform sign"
                        f" evaluations (quadrature for compact supports, shipped spectral densities); {e4} matrices on stale-dimension histories (D8);"
@@ -2376,6 +2980,85 @@ def search(ctx, deep=False):
                        f" state; histories: {stats.get('histories', {})}; {e8} parameter sets / matrices on decimal grids of every optional argument in all"
                        f" binary forms of each decimal value and its nextafter neighbours (values special only up to rounding: finite, cor(0)=1, |cor|<=1 from"
                        f" 1e-5 len_rescaled, eigenvalues on lattice + tight cluster, spectral density sign, continuity across a few ulp): {stats.get('rounding', {})}."
+                       f"  {e9} attempts to reach a parameter state through every public route (constructor: {CTOR_ROUTES}; living object: {OBJ_ROUTES})"
+                       f" x argument (var, len_scale, nugget, anis, every optional argument) x values below / on / next to / inside both ends of its interval:"
+                       f" outside => raises, inside => accepted with all arguments inside the object's arg_bounds, |cor| <= 1 and PSD matrices: {stats.get('routes', {})};"
+                       f" {e10} signed-lag checks (f(-h) = f(h) for correlation / covariance / variogram / *_nugget / *_axis / *_spatial on arrays, 2-D arrays, lists, scalars;"
+                       f" |cor| <= 1 at negative lags; matrices C(x_i - x_j) from signed 1-D differences through covariance / cov_axis / cov_nugget symmetric and PSD): {stats.get('signed', {})}."
                        f"  Every scan walks through all"
                        f" combinations of rescale {RESCALES} (None = default) and rescalable optional lengths {LOW_FACTORS} x len_scale."
                        f" worst min-eig/(n var) per class: {stats.get('worst_relative_min_eig', {})}"}
+
+
+def replay(ctx, payload):
+    """re-run the recorded failing inputs of route_scan / signed_scan (and any case that carries class + constructor keywords)
+    against the current tree"""
+    bad = 0
+    for v in payload.get("violations", []):
+        c, key = v.get("case", {}), v.get("key", "")
+        cls = c.get("cls")
+        if cls not in CLASSES:
+            continue
+        T = getattr(gs(), cls)
+        if key.startswith(("route-accepts-out-of-bounds:", "route-rejects-valid-parameters:", "accepted-state-outside-arg_bounds:")) and "route" in c:
+            route, arg, val = c["route"], c.get("argument"), c.get("value", c.get("value_before"))
+            if "kw" in c:
+                out = _call_outcome(lambda: T(*c.get("args", []), **c["kw"]))
+                m = out[1] if out[0] == "ok" else None
+            else:
+                m = T(**c["start"])
+                if "new_bounds" in c and route == "set_arg_bounds+setter":
+                    m.set_arg_bounds(**{arg: c["new_bounds"]})
+                if route == "setter-after-evaluation":
+                    touch(m, draw_touch(None, "all"))
+                d = int(m.dim)
+                if route == "set_arg_bounds(check_args)":
+                    setattr(m, arg, [val] + [1.3] * (d - 2) if arg == "anis" else val)
+                    out = _call_outcome(lambda: m.set_arg_bounds(check_args=True, **{arg: c["new_bounds"]}))
+                elif route == "var_raw-setter":
+                    out = _call_outcome(lambda: setattr(m, "var_raw", val))
+                elif route == "integral_scale-setter":
+                    out = _call_outcome(lambda: setattr(m, "integral_scale", [1.7, val * 1.7] + [1.4 * 1.7] * (d - 2) if arg == "anis" else val))
+                else:
+                    out = _call_outcome(lambda: setattr(m, arg, [val] + [1.3] * (d - 2) if arg == "anis" else val))
+                if out[0] != "ok":
+                    m = None
+            state = _state_in_bounds(m) if m is not None else None
+            rep = _psd_report_safe(cls, m) if m is not None else None
+            print(f"replay {key}: route '{route}', {arg} = {val!r}: {'accepted' if m is not None else 'raised ' + str(out[1])}"
+                  + (f"; argument outside the object's arg_bounds: {state}" if state else "") + (f"; not a valid covariance: {rep[1]}" if rep else ""))
+            if key.startswith("route-accepts-out-of-bounds:"):
+                bad += m is not None
+            elif key.startswith("route-rejects-valid-parameters:"):
+                bad += m is None
+            else:
+                bad += state is not None
+            continue
+        if "kw" not in c:
+            continue
+        with warnings.catch_warnings(), np.errstate(all="ignore"):
+            warnings.simplefilter("ignore")
+            try:
+                m = T(**c["kw"])
+            except Exception as e:
+                print(f"replay {key}: constructor raises {type(e).__name__}: {e}")
+                continue
+            if key.startswith("signed-lag:") and "lag" in c:
+                r = float(c["lag"])
+                a, b = float(np.ravel(m.correlation(np.array([abs(r)])))[0]), float(np.ravel(m.correlation(np.array([-abs(r)])))[0])
+                print(f"replay {key}: correlation({abs(r)!r}) = {a!r}, correlation({-abs(r)!r}) = {b!r}")
+                bad += not (a == b or (np.isnan(a) and np.isnan(b))) or not abs(b) <= 1 + 1e-9
+                continue
+            if key.startswith("signed-lag:"):
+                x = np.arange(12) * 0.4 * m.len_rescaled
+                D = x[:, None] - x[None, :]
+                C = np.asarray(m.covariance(D.ravel()), float).reshape(D.shape)
+                asym = float(np.max(np.abs(C - C.T))) if np.all(np.isfinite(C)) else float("nan")
+                print(f"replay {key}: covariance(x_i - x_j) on a 12-point transect: max |C - C^T| = {asym!r}, failing = {matrix_fails(m, C)}")
+                bad += matrix_fails(m, C) or not asym <= 1e-12 * m.sill
+                continue
+            rep = _psd_report_safe(cls, m)
+            print(f"replay {key}: {cls}({c['kw']}): " + (rep[1] if rep else "correlation grid and covariance matrix pass"))
+            bad += rep is not None
+    print("VIOLATION reproduced" if bad else "not reproduced")
+    return 1 if bad else 0
